@@ -207,10 +207,11 @@ class CallMixin:
             # a method of a finam class that no finam subclass overrides and that is under contract for this class:
             # the contract is used (user subclasses are assumed not to override it -- listed assumption)
             fi = self.repo.lookup_method(ci, attr)
-            if fi is not None and not any(attr in c.methods for c in self.repo.subclasses(ci) if c is not ci):
+            if fi is not None and "abstractmethod" not in fi.decorators \
+                    and not any(attr in c.methods for c in self.repo.subclasses(ci) if c is not ci):
                 c = self.registry.find(fi.qual, [x.name for x in ci.mro])
-                if c is not None and c.self_cls == ci.name:
-                    self.assumptions.add(f"{ci.name}.{attr} is not overridden by user subclasses (contract of the finam method used at call sites)")
+                if (c is not None and c.self_cls == ci.name) or ci.name in getattr(self.registry, "static_dispatch", ()):
+                    self.assumptions.add(f"{ci.name}.{attr} is not overridden by user subclasses (the finam method is used at call sites)")
                     ref2 = sv.SRef(ref.e, ci.name, True)
                     if fi.is_property:
                         return self.call_function(fi, [ref2], {}, path, node, self_ref=ref2)
@@ -573,6 +574,33 @@ class CallMixin:
             return sv.NONE
         raise Unsupported(f"break/continue escaping {fi.qual}", node)
 
+    def closure_outcomes(self, fn, args, path):
+        """all outcomes of calling a closure value (for contracts that specify a returned function):
+        list of (kind, path condition added by the call, value); obligations raised inside are kept on `path`"""
+        if not (isinstance(fn, sv.SPy) and fn.what == "closure"):
+            raise Unsupported(f"closure_outcomes on {fn}")
+        fnode, env, frame = fn.payload
+        names = [a.arg for a in fnode.args.args]
+        p = path.clone()
+        p.env = dict(env)
+        p.env.update(dict(zip(names, args)))
+        p.memo, p.memo_pos = [], 0
+        self.frames.append(frame)
+        self.frame_depth += 1
+        try:
+            outs = [o for o in self.exec_block(fnode.body, p) if not o[1].dead]
+        finally:
+            self.frames.pop()
+            self.frame_depth -= 1
+        res = []
+        n0, o0 = len(path.pc), len(path.obls)
+        for kind, p2, val in outs:
+            for ob in p2.obls[o0:]:
+                if ob not in path.obls:
+                    path.obls.append(ob)
+            res.append((kind, sv.And(*p2.pc[n0:]), val))
+        return res
+
     def choose_n(self, path, n):
         if path.memo_pos < len(path.memo):
             k = path.memo[path.memo_pos]
@@ -641,7 +669,10 @@ class CallMixin:
             else:
                 result = sv.NONE
             if c.ensures is not None:
-                path.assume(c.ensures(ctx_post, result))
+                ens = c.ensures(ctx_post, result)
+                if isinstance(ens, dict):
+                    ens = sv.And(*ens.values())
+                path.assume(ens)
             for name in post_args:
                 if post_args[name] is not argmap[name]:
                     self.writeback_arg(c, name, post_args[name], path, node)
